@@ -18,7 +18,8 @@ import z3
 from . import sym
 from .core import Engine, PathInfeasible, PyRaise, Unsupported, cur, discharge
 from .frontend import Repo
-from .interp import Interp, PathEnd, assert_same
+from .core import PathEnd
+from .interp import Interp, assert_same
 from .models import MODELS, deep_copy
 
 REGISTRY = {}
